@@ -1,6 +1,9 @@
 package ecdsa
 
 import (
+	"bytes"
+	"errors"
+
 	"github.com/taurusgroup/multi-party-sig/pkg/math/curve"
 )
 
@@ -39,6 +42,18 @@ func (sig Signature) Verify(X curve.Point, hash []byte) bool {
 
 // get a signature in ethereum format
 func (sig Signature) SigEthereum() ([]byte, error) {
+	// the recovery id v ∈ {0,1} can only describe a nonce point whose x coordinate is below the
+	// group order; this is checked before anything is modified
+	rx, err := sig.R.XScalar().MarshalBinary()
+	if err != nil {
+		return nil, err
+	}
+	if rFull, err := sig.R.MarshalBinary(); err != nil {
+		return nil, err
+	} else if !bytes.Equal(rx, rFull[1:]) {
+		return nil, errors.New("ecdsa: x coordinate of R is not below the group order, signature has no Ethereum form")
+	}
+
 	IsOverHalfOrder := sig.S.IsOverHalfOrder() // s-values greater than secp256k1n/2 are considered invalid
 
 	if IsOverHalfOrder {
